@@ -49,6 +49,10 @@ THEOREMS = [
     "Lena.C02.stage_pipeSim",
     "Lena.C02.take_sim",
     "Lena.C02.split_none_never_returns",
+    # Split.__init__: the effective bufsize (only a Cache in a sequence-type branch gives up a finite bufsize)
+    "Lena.C02.effBufsize_no_cache",
+    "Lena.C02.effBufsize_cache",
+    "Lena.C02.containsCache_split",
     # the hypotheses in executable form (evaluated by the driver on every case)
     "Lena.C02.Stage.wfb_iff",
     "Lena.C02.seqFuelOKb_iff",
@@ -186,6 +190,9 @@ def slice_args(st):
     return (st["start"], st["stop"], st["step"])
 
 
+_TMPFILES = []
+
+
 def build_el(st, uid):
     import lena.core
     import lena.flow
@@ -208,6 +215,15 @@ def build_el(st, uid):
         if impl == "makefilename":
             return lena.output.MakeFilename("f%d" % next(uid))
         raise ValueError(impl)
+    if t == "cache":
+        # a Cache without a cache file passes the flow through (and pickles it at the end)
+        import os
+        import tempfile
+        fd, path = tempfile.mkstemp(prefix="c02cache-", suffix=".pkl")
+        os.close(fd)
+        os.remove(path)
+        _TMPFILES.append(path)
+        return lena.flow.Cache(path, recompute=True)
     if t == "filter":
         return lena.flow.Filter(mk_selector(st["p"]))
     if t == "slice":
@@ -296,6 +312,13 @@ def one_run(case, k):
             # Source(first, *els)() is Sequence(*els).run(first())
             seq = lena.core.Source(lambda: source(case["n"], st, case.get("pairs", False)), *els)
             flow = seq()
+        elif case.get("via") == "source_iter":
+            # the first element is a one-pass iterator OBJECT (a generator object): __call__ must hand it on untouched
+            import warnings
+            with warnings.catch_warnings():
+                warnings.simplefilter("ignore")
+                seq = lena.core.Source(source(case["n"], st, case.get("pairs", False)), *els)
+            flow = seq()
         else:
             src = source(case["n"], st, case.get("pairs", False))
             seq = lena.core.Sequence(*els)
@@ -334,7 +357,23 @@ def one_run(case, k):
     return built, res, end, final, st.clock, st.alive_log
 
 
+def _cleanup_tmp():
+    import os
+    while _TMPFILES:
+        try:
+            os.remove(_TMPFILES.pop())
+        except OSError:
+            pass
+
+
 def run_impl(case):
+    try:
+        return _run_impl(case)
+    finally:
+        _cleanup_tmp()
+
+
+def _run_impl(case):
     with contextlib.redirect_stdout(io.StringIO()):
         built, res, end, final, _, alive = one_run(case, case["K"])
         stops = []
@@ -535,12 +574,28 @@ class _RefFc(object):
         return ref_den(self.b["post"], [(self.count, dict(self.ctx))], self.state)
 
 
+def has_cache(obj):
+    """`_contains_cache` on a descriptor: a Cache anywhere below (in nested Splits, sequences, RunIf)"""
+    if isinstance(obj, dict):
+        return obj.get("t") == "cache" or any(has_cache(v) for v in obj.values())
+    if isinstance(obj, list):
+        return any(has_cache(v) for v in obj)
+    return False
+
+
+def eff_bufsize(st):
+    """documented: a Split whose sequence-type branch contains a Cache reads the whole flow at once"""
+    if st["bufsize"] is not None and any(b["k"] == "seq" and has_cache(b) for b in st["branches"]):
+        return None
+    return st["bufsize"]
+
+
 def ref_split(st, sf, state):
     c0, vals, cf = sf
     brs = st["branches"]
     if not brs:
         return sf
-    bufsize = st["bufsize"]
+    bufsize = eff_bufsize(st)
     active = [(b, _RefFc(b, state) if b["k"] == "fc" else None) for b in brs]
     srcvals = lambda b: [(b["base"] + i, {}) for i in range(b["m"])]
     out = []
@@ -591,6 +646,8 @@ def ref_stage(st, sf, state=None):
         if st.get("impl", "callable") in ("callable", "variable"):
             f = fn_on_int(st["f"])
             return (c0, [((f(v[0]), v[1]), c) for v, c in vals], cf)
+        return sf
+    if t == "cache":
         return sf
     if t == "filter":
         p = pred_on_int(st["p"])
@@ -657,10 +714,10 @@ def _caps(stages):
         elif t == "split":
             if not st["branches"]:
                 continue                  # Split([]) passes the flow through
-            if st["bufsize"] is None:
+            if eff_bufsize(st) is None:
                 return None, cnt
             # the block being read plus the block just processed (still bound to `orig_buf`)
-            cap += 2 * st["bufsize"]
+            cap += 2 * eff_bufsize(st)
             cnt += sum(len(b.get("stages", [])) + len(b.get("pre", [])) for b in st["branches"])
     return cap, cnt
 
@@ -738,6 +795,8 @@ def describe(case):
             return f"Filter{st['p']}"
         if t == "slice":
             return "Slice" + str(slice_args(st)).replace(" ", "")
+        if t == "cache":
+            return "Cache"
         if t == "count":
             return f"Count({st['name']},{st['c0']})"
         if t == "runif":
@@ -757,6 +816,8 @@ def describe(case):
     src = "infinite input" if case["n"] is None else f"input of {case['n']} values"
     if case.get("via") == "source":
         return f"Source({', '.join(['<input>'] + [d(s) for s in case['stages']])})() with an {src}"
+    if case.get("via") == "source_iter":
+        return f"Source({', '.join(['<iterator object>'] + [d(s) for s in case['stages']])})() with an {src}"
     return f"Sequence({', '.join(d(s) for s in case['stages'])}) over an {src}"
 
 
@@ -847,7 +908,7 @@ def g_runif(rng, pairs, depth, names=None):
             "inner": _eager_ok([g_stateless(rng, pairs, depth, names) for _ in range(rng.randint(0, 2))], rng)}
 
 
-def g_split(rng, pairs, names, infinite=False):
+def g_split(rng, pairs, names, infinite=False, nested=True):
     nb = rng.choice([0, 1, 1, 2, 2, 3])
     brs = []
     for _ in range(nb):
@@ -855,6 +916,24 @@ def g_split(rng, pairs, names, infinite=False):
         if r0 < 0.5:
             stages = _eager_ok([g_stateless(rng, pairs, 1, names, direct_count=False)
                                 for _ in range(rng.randint(1, 2))], rng)
+            r1 = rng.random()
+            if nested and r1 < 0.22:
+                # a nested Split of stateless sequence branches with its own bufsize (None does NOT make the outer
+                # Split read everything: only a Cache does)
+                inner = {"t": "split", "bufsize": rng.choice([None, None, 1, 2, 1000]), "copy": True,
+                         "branches": [{"k": "seq", "stages": [g_stateless(rng, pairs, 0)
+                                                              for _ in range(rng.randint(1, 2))]}
+                                      for _ in range(rng.randint(1, 2))]}
+                if rng.random() < 0.25:
+                    inner["branches"][0]["stages"].append({"t": "cache"})
+                stages.insert(rng.randint(0, len(stages)), inner)
+                stages = [st for st in stages if '"count"' not in json.dumps(st)]    # (one object serves every block)
+            elif nested and r1 < 0.3:
+                # a Cache in a sequence-type branch: the documented demotion to bufsize=None
+                cache = {"t": "cache"}
+                stages.insert(rng.randint(0, len(stages)),
+                              cache if rng.random() < 0.6 else {"t": "runif", "p": ["all"], "seqarg": False,
+                                                                "inner": [cache]})
             brs.append({"k": "seq", "stages": stages, "bare": rng.random() < 0.3, "explicit": rng.random() < 0.2})
         elif r0 < 0.58:
             brs.append({"k": "src", "m": rng.randint(0, 3), "base": 100 * (1 + next(names)), "pairs": pairs})
@@ -909,7 +988,8 @@ def random_case(rng, tier):
     infinite = rng.random() < 0.25
     names = itertools.count()
     stages = [g_stage(rng, pairs, names, infinite) for _ in range(rng.choice([0, 1, 1, 2, 2, 3, 3, 4]))]
-    via = "source" if rng.random() < 0.25 else "sequence"
+    r = rng.random()
+    via = "source" if r < 0.2 else ("source_iter" if r < 0.3 else "sequence")
     if infinite:
         return mk_case(stages, None, pairs, K=rng.randint(0, 9), ks=[rng.randint(0, 6)], via=via)
     n = rng.choice([0, 1, 2, 3, 4, 5, 6, 7, 8, 10, 12, 25 if tier == "quick" else 40])
@@ -961,6 +1041,23 @@ def fixed_cases(tier):
         cases.append(mk_case([sp], None, K=7, ks=[1, 5]))
         cases.append(mk_case([sp], 11, ks=[0, 1, 2, 6]))
     cases.append(mk_case([{"t": "slice", "start": None, "stop": 5, "step": None, "form": 1}], None, K=8, ks=[0, 3, 5, 6]))
+    # a nested Split(bufsize=None) without a Cache does not demote the outer Split; a Cache does (documented)
+    m2 = {"k": "seq", "stages": [{"t": "map", "f": ["mul", 2], "impl": "callable"}]}
+    ident = {"k": "seq", "stages": [{"t": "map", "f": ["id"], "impl": "callable"}]}
+    for inner_buf in (None, 1, 1000):
+        for extra in ([], [{"t": "cache"}]):
+            inner = {"t": "split", "bufsize": inner_buf, "copy": True, "branches": [m2, ident]}
+            outer = {"t": "split", "bufsize": 2, "copy": True,
+                     "branches": [dict(twice), {"k": "seq", "stages": [inner] + extra}]}
+            cases.append(mk_case([outer], 7, ks=[0, 1, 4]))
+            cases.append(mk_case([outer, {"t": "slice", "start": None, "stop": 3, "step": None, "form": 1}], None, K=5,
+                                 ks=[1], via="source"))
+    # Source with a one-pass iterator object as its first element
+    for n in (4, None):
+        cases.append(mk_case([{"t": "map", "f": ["add", 1], "impl": "callable"},
+                              {"t": "slice", "start": None, "stop": 3, "step": None, "form": 1}], n, K=5, ks=[0, 1, 3],
+                             via="source_iter"))
+        cases.append(mk_case([], n, K=2, ks=[0, 1], via="source_iter"))
     return cases
 
 
@@ -1018,6 +1115,10 @@ def classify(case, res):
             labels.append("el:slice:" + k(a) + k(b))
         elif t == "split":
             labels.append("el:split")
+            if '"cache"' in json.dumps(st):
+                labels.append("split:cache" + (":demoted" if eff_bufsize(st) is None and st["bufsize"] is not None else ""))
+            if any(x.get("t") == "split" for b in st["branches"] for x in b.get("stages", [])):
+                labels.append("split:nested")
             for b in st["branches"]:
                 labels.append("branch:" + b["k"] + (":explicit" if b.get("explicit") else ""))
         else:
@@ -1059,7 +1160,7 @@ RULE = ("quick and thorough: fixed cases (documented examples; negative Slice ov
         "elements over finite and infinite inputs, and seeded random pipelines (0..4 elements: callables, Variable, "
         "Print, Context, UpdateContext, MakeFilename, Filter, Slice, Count, RunIf (also with Count inside, also given a "
         "Selector and a Sequence), Split with sequence, fill/compute (tuple or explicit FillComputeSeq, FillInto(Count) "
-        "before the fill/compute element) and Source branches, bufsize 1..5, 1000, None; 4000 quick / 120000 thorough; a quarter of them run as Source(input, *elements)()), each with a long run and runs for consumer stop points "
+        "before the fill/compute element) and Source branches, a nested Split (bufsize None/1/2/1000) or a Cache inside a sequence-type branch, bufsize 1..5, 1000, None; 4000 quick / 120000 thorough; 30% of them run as Source(first, *elements)() with a callable or a one-pass iterator object as first element), each with a long run and runs for consumer stop points "
         "(quick: 3 per case, thorough: every k = 0..n+1). Non-trivial: at least one element and one result.")
 TRUSTED = [
     "Lean 4.33.0 kernel; axioms limited to propext, Classical.choice, Quot.sound (audited by #print axioms on every run)",
